@@ -14,6 +14,8 @@
                                 the result of the uninterpreted `verify` for (key, spec digest i, sig i);
                                 the model hashes with `hash := id`, so a query on any other byte
                                 string than the spec digest is answered `e`
+    validate-nonlri D K… / gensig-nonlri D <keyhex>
+                                the entry points with data->nlri == NULL (validateEntry / generateEntry)
     gensig D <keyhex> O <keyok 0|1> <siglen>
                                 return code of generateSignature when load_private_key succeeds (1) or
                                 fails (0) and ECDSA_sign yields <siglen> bytes
@@ -203,6 +205,19 @@ def step (_ : Unit) (line : String) : Unit × String :=
             | none => bad
       | _ => bad
     | none => bad
+  | "validate-nonlri" :: rest =>
+    match parseData rest with
+    | some (d, rest) => match parseTable rest with
+      | some (T, _) => ((), (validateEntry (H := List Nat) id (fun _ _ _ => VRes.error) .skiAndAs true (some d) true (some T)).name)
+      | none => bad
+    | none => bad
+  | "gensig-nonlri" :: rest =>
+    match parseData rest with
+    | some (d, [key]) => match hexBytes? key with
+      | some key =>
+        ((), (generateEntry (H := List Nat) (SK := Unit) id (fun _ => some ()) (fun _ _ => [0]) (some d) true (some key) true).1.name ++ " - - -")
+      | none => bad
+    | _ => bad
   | "gensig" :: rest =>
     match parseData rest with
     | some (d, [key, "O", ok, sl]) => match hexBytes? key, natLt ok 2, natLt sl 1000 with
